@@ -1,6 +1,6 @@
 """k2check.py -- shared runner for the K2-tied properties (C01 C06 C07 C13 C14)."""
 import os, json, time
-from concurrent.futures import ThreadPoolExecutor
+from concurrent.futures import ThreadPoolExecutor, ProcessPoolExecutor
 import vlib, k2lib, histgen
 
 # which observed problems concern which property, and whether the problem is itself a
@@ -72,8 +72,8 @@ def run_k2(rep, prop, tier, seed, profile, nhist, nops, fixed=None, extra_histor
     rng = vlib.Rng(seed ^ 0xC0FFEE)
     jobs = [(k2, model, out, 1000 + i, 0, h, nops, fixed) for i, h in enumerate(extra_histories)]   # corpus first
     jobs += [(k2, model, out, i, rng.next(), profile, nops, fixed) for i in range(nhist)]
-    with ThreadPoolExecutor(vlib.NCPU) as ex:
-        results = list(ex.map(one_history, jobs))
+    with ProcessPoolExecutor(vlib.NCPU) as ex:
+        results = list(ex.map(one_history, jobs, chunksize=1))
     totals = {}
     nontrivial = 0
     cfg_hist = {}
